@@ -4,7 +4,7 @@
    the property theorems, each closed by `exact`, pinned by `Check`, followed by
    `Print Assumptions`. *)
 From Coq Require Import NArith List Bool.
-From SdSd Require Import Poly CrcModel CrcProofs SdModel SdSpec SdBound SdSafety SdCapacity SdTheorems SdCardLemmas SdSystem SdInit SdTransfer SdMulti SdLegal.
+From SdSd Require Import Poly CrcModel CrcProofs SdModel SdSpec SdBound SdSafety SdCapacity SdTheorems SdCardLemmas SdSystem SdInit SdTransfer SdMulti SdLegal SdRecover SdRecoverEx.
 Import ListNotations.
 Open Scope N_scope.
 
@@ -136,9 +136,9 @@ Proof. exact failed_init_keeps_ctype. Qed.
    PROVED (C13_recovers_partial): the same for every LEGALCARD state in which the card can receive a
    command frame - no frame half received, not inside a data transfer (c_fbuf = [], c_phase = PIdle;
    busy or not, idle or ready, CRC on or off, any pending output, any driver belief about the card
-   type) - and a trace so far that leaves the host between commands.  MISSING: card states in the
-   middle of a data block / multi-block stream (there CMD0 is swallowed as data until the block ends;
-   the driver's CMD0 retries cover it, which is not proved), and independence from the earlier trace. *)
+   type) - and a trace so far that leaves the host between commands; here the whole trace stays a legal
+   conversation (Inv).  The card states in the middle of a data block / multi-block stream and the
+   independence from the earlier trace, missing here, are proved in C13_recovers below. *)
 Theorem C13_recovers_partial : forall (o : opts) (kd : kind) (csd : list N) (tim : timing),
   legal_timing tim -> addressable kd csd -> is_csd csd -> CSD_STRUCTURE csd = 0 \/ CSD_STRUCTURE csd = 1 ->
   forall (s : st card) (mem : N -> list N) (c : api_call),
@@ -150,6 +150,128 @@ Theorem C13_recovers_partial : forall (o : opts) (kd : kind) (csd : list N) (tim
                 api card card_spi o c s1 = (spec_outcome kd csd mem c, s') /\
                 Inv o kd csd tim s' (spec_after kd csd mem c).
 Proof. exact recovers. Qed.
+
+(* ---- recovery (full) ---------------------------------------------------------------------------------
+   From ANY driver state (any card_type belief, ANY earlier trace - legal or not) and EVERY state
+   LEGALCARD can be in, mark_card_uninit followed by a call c (any call except mark_card_uninit itself)
+   re-initialises the card, c returns what the specification says and the card's memory changes as
+   the specification says - relative to the memory `mem_flushed (dev s)` defined below.
+   Card states covered (definitions in SdRecover.v):
+     - any phase: idle, streaming a multiple-block read (PNextBlock), waiting for a write token
+       (PWaitTok, single or multiple), RECEIVING a write data block (PRecv, single or multiple);
+       any pending output, busy or not, idle/ready, CRC on/off, APP_CMD latch, any tick;
+     - `recv_wf`: inside a data block nothing is queued, no frame is in progress, 1..514 bytes are
+       still to come, the bytes so far are bytes.  This is an invariant of the card model
+       (C13_card_state_invariant: holds after power-up, preserved by every byte on the bus);
+     - `frame_ok`: no command frame half received, OR a half-received frame (1..5 bytes) that the card
+       will CRC-check when complete (CRC checking on, or a CMD0/CMD8 frame) at a card that is idle or
+       waiting for a write token.  Outside this, recovery can FAIL: C13_recovers_refuted_* below.
+   Requirement on the options: `retries_needed (dev s) <= acquire_retries o`, where retries_needed is 1
+   if the card is inside a data block or has a half-received frame, else 0.  The bound is sharp
+   (C13_recovers_needs_retry).  Why one retry suffices: a CMD0 attempt clocks 6 + 10001 bytes, a data
+   block is at most 514 bytes; the card completes the block with the driver's bytes, answers with a
+   data-response token (bit 7 set) and busy bytes (00) or nothing - never 01 -, so the first attempt
+   ends with R1 = 00 or a timeout (+ 255 fill bytes), and the second CMD0 is recognised.  A card that is
+   streaming a multiple-block read or waiting for a write token recognises CMD0 at once.
+   THE UNAVOIDABLE EFFECT (C13_recovers_block_clause): a card that was receiving block `blk` takes the
+   first nleft bytes the driver sends - 40 00 00 00 00 95 FF FF .. - as the rest of that block and its
+   CRC field.  CRC checking on and the field does not match, or blk beyond the capacity: nothing is
+   stored.  Otherwise block blk := the 512 bytes received (the bytes received before, then the
+   driver's).  No other block changes.
+   Conclusion: the final state s' equals (`eqv`: same device state, same card_type; the ghost trace
+   differs) a state sref with `Ready`: card_type = the card's kind, the card initialised, idle between
+   commands, memory = spec_after.  Every later call behaves as from sref (C13_trace_independent). *)
+Theorem C13_recovers : forall (o : opts) (kd : kind) (csd : list N) (tim : timing),
+  legal_timing tim -> addressable kd csd -> is_csd csd -> CSD_STRUCTURE csd = 0 \/ CSD_STRUCTURE csd = 1 ->
+  forall (s : st card) (c : api_call),
+  k_kind (dev s) = kd -> k_csd (dev s) = csd -> k_tim (dev s) = tim ->
+  frame_ok (dev s) -> recv_wf (dev s) -> mem_ok (c_mem (dev s)) ->
+  retries_needed (dev s) <= acquire_retries o ->
+  api_ok c -> c <> CMarkUninit ->
+  exists s1 s' sref,
+    api card card_spi o CMarkUninit s = (Ok VUnit, s1) /\
+    api card card_spi o c s1 = (spec_outcome kd csd (mem_flushed (dev s)) c, s') /\
+    eqv s' sref /\ Ready o kd csd tim sref (spec_after kd csd (mem_flushed (dev s)) c).
+Proof. exact recovers_full. Qed.
+
+(* the memory the recovered card starts from *)
+Theorem C13_recovers_block_clause :
+  (forall c multi blk got nleft, c_phase c = PRecv multi blk got nleft ->
+     let g := got ++ firstn nleft ([64;0;0;0;0;149] ++ repeat 255 nleft) in
+     mem_flushed c =
+       if (c_crc c && negb (crc16 (firstn 512 g) =? be16_val (nth 512 g 0) (nth 513 g 0))) || negb (blk <? nblocks c)
+       then c_mem c else upd_mem (c_mem c) blk (firstn 512 g)) /\
+  (forall c, (forall multi blk got nleft, c_phase c <> PRecv multi blk got nleft) -> mem_flushed c = c_mem c).
+Proof.
+  split.
+  - intros c multi blk got nleft Hp. rewrite <- flush_stream_spec. exact (mem_flushed_recv c multi blk got nleft Hp).
+  - intros c H. apply mem_flushed_other. destruct (c_phase c) eqn:E; try reflexivity. exfalso. exact (H _ _ _ _ eq_refl).
+Qed.
+
+(* the bound on acquire_retries is sharp: with acquire_retries = 0, from every card state inside a
+   data block or with a half-received frame, the call fails with CardNotFound *)
+Theorem C13_recovers_needs_retry : forall (o : opts) (kd : kind) (csd : list N) (tim : timing) (s : st card) (c : api_call),
+  k_kind (dev s) = kd -> k_csd (dev s) = csd -> k_tim (dev s) = tim ->
+  frame_ok (dev s) -> recv_wf (dev s) -> retries_needed (dev s) = 1 -> acquire_retries o = 0 ->
+  c <> CMarkUninit -> c <> CGetType ->
+  fst (api card card_spi o c {| dev := dev s; tr := tr s; ctype := None |}) = Err CardNotFound.
+Proof. exact needs_retry. Qed.
+
+(* recv_wf and "a frame in progress has at most 5 bytes" are invariants of the card model *)
+Theorem C13_card_state_invariant :
+  (forall kd csd t m, card_inv (power_on kd csd t m)) /\
+  (forall c m, card_inv c -> m < 256 -> card_inv (fst (card_byte c m))) /\
+  (forall c, card_inv c -> (length (c_fbuf c) <= 5)%nat /\ recv_wf c).
+Proof. split; [exact card_inv_power_on|]. split; [exact card_inv_byte|]. intros c H. exact H. Qed.
+
+(* the recorded trace is ghost state: two driver states that differ only in it give the same
+   result and stay equal up to it, for every call and every device *)
+Theorem C13_trace_independent : forall (dstate : Type) (spi : dstate -> spi_call -> dstate * spi_reply) (o : opts)
+    (c : api_call) (a b : st dstate),
+  eqv a b -> fst (api dstate spi o c a) = fst (api dstate spi o c b) /\
+             eqv (snd (api dstate spi o c a)) (snd (api dstate spi o c b)).
+Proof. exact ti_api. Qed.
+
+(* non-vacuity: a card 100 bytes into a single-block write of block 3 (414 bytes to come), the driver
+   believing it is SDHC, an illegal earlier trace, acquire_retries = 1.  CRC on: the block fails its
+   CRC, block 3 is unchanged and read back; CRC off: block 3 = 100 received bytes, the CMD0 frame, FF. *)
+Example C13_recovers_mid_block :
+  (exists s1 s', api card card_spi (ex_opts true 1) CMarkUninit (ex_st (mid_block true)) = (Ok VUnit, s1) /\
+    api card card_spi (ex_opts true 1) (CRead 1 3) s1 = (Ok (VBlocks [repeat 0 512]), s') /\
+    ctype s' = Some SD1 /\ c_mem (dev s') 3 = repeat 0 512) /\
+  mem_flushed (mid_block false) = upd_mem (fun _ => repeat 0 512) 3 (repeat 7 100 ++ [64;0;0;0;0;149] ++ repeat 255 406) /\
+  fst (api card card_spi (ex_opts false 1) (CRead 1 3) {| dev := mid_block false; tr := []; ctype := None |}) =
+    Ok (VBlocks [repeat 7 100 ++ [64;0;0;0;0;149] ++ repeat 255 406]).
+Proof. exact (conj recovers_mid_block_crc_on (conj mid_block_crc_off recovers_mid_block_crc_off)). Qed.
+
+(* REFUTED outside frame_ok (1): the card idle with CRC checking off has received 7B 00 00 00 01 (five
+   bytes of CMD59 arg 1); the first byte of the driver's CMD0 frame completes it, the card executes
+   CMD59 (CRC now on) and answers 01, which the driver (N_CR = 8, use_crc = false) takes for the answer
+   to CMD0: initialisation completes with card and driver disagreeing on CRC, a block write fails. *)
+Theorem C13_recovers_refuted_unchecked_frame :
+  exists (o : opts) (kd : kind) (csd : list N) (tim : timing) (s : st card) (c : api_call),
+    legal_timing tim /\ addressable kd csd /\ is_csd csd /\ (CSD_STRUCTURE csd = 0 \/ CSD_STRUCTURE csd = 1) /\
+    k_kind (dev s) = kd /\ k_csd (dev s) = csd /\ k_tim (dev s) = tim /\
+    card_inv (dev s) /\ c_phase (dev s) = PIdle /\ c_out (dev s) = [] /\ mem_ok (c_mem (dev s)) /\
+    50 <= acquire_retries o /\ api_ok c /\ c <> CMarkUninit /\
+    exists s1, api card card_spi o CMarkUninit s = (Ok VUnit, s1) /\
+               fst (api card card_spi o c s1) = Err WriteError /\
+               spec_outcome kd csd (mem_flushed (dev s)) c = Ok VUnit.
+Proof. exact recovers_refuted_unchecked_frame. Qed.
+
+(* REFUTED outside frame_ok (2): the card streaming a multiple-block read (CRC on) has received 4C (one
+   byte of CMD12); the driver's frame completes it, the card rejects it and streams on; the driver
+   reads a data byte 01 as the answer to CMD0 and fails later with TimeoutCommand(8). *)
+Theorem C13_recovers_refuted_streaming_frame :
+  exists (o : opts) (kd : kind) (csd : list N) (tim : timing) (s : st card) (c : api_call),
+    legal_timing tim /\ addressable kd csd /\ is_csd csd /\ (CSD_STRUCTURE csd = 0 \/ CSD_STRUCTURE csd = 1) /\
+    k_kind (dev s) = kd /\ k_csd (dev s) = csd /\ k_tim (dev s) = tim /\
+    card_inv (dev s) /\ frame_checked (dev s) /\ mem_ok (c_mem (dev s)) /\
+    50 <= acquire_retries o /\ api_ok c /\ c <> CMarkUninit /\
+    exists s1, api card card_spi o CMarkUninit s = (Ok VUnit, s1) /\
+               fst (api card card_spi o c s1) = Err (TimeoutCommand 8) /\
+               spec_outcome kd csd (mem_flushed (dev s)) c = Ok (VBlocks [repeat 1 512]).
+Proof. exact recovers_refuted_streaming_frame. Qed.
 
 (* non-vacuity: a dead bus (every call fails) makes a read fail with Transport after one call *)
 Definition dead_bus : ostate := {| o_miso := []; o_pad := 255; o_calln := 0; o_fails := fun _ => true |}.
@@ -176,3 +298,11 @@ Print Assumptions C13_write_status.
 Print Assumptions C13_bad_token.
 Print Assumptions C13_failed_init.
 Print Assumptions C13_recovers_partial.
+Print Assumptions C13_recovers.
+Print Assumptions C13_recovers_block_clause.
+Print Assumptions C13_recovers_needs_retry.
+Print Assumptions C13_card_state_invariant.
+Print Assumptions C13_trace_independent.
+Print Assumptions C13_recovers_mid_block.
+Print Assumptions C13_recovers_refuted_unchecked_frame.
+Print Assumptions C13_recovers_refuted_streaming_frame.
